@@ -8,9 +8,10 @@ void harness(void)
     xv_ghost_havoc();
     xv_ctl_ghost_havoc();
     xv_ctl_g_foreign = nondet_bool(); xv_ctl_g_fev = nondet_int();
-    struct client *client; struct ctl *ctl;
+    struct client *client = NULL;   /* (not left uninitialised: symex would add a 38 KB "unknown object" of type struct client to its points-to set; pointer_in_range in the contract assigns it) */
+    struct ctl *ctl;
     int rv = client_send(client, ctl);
-    if (rv == 0 && xv_ctl_send_rc >= 0 && xv_ctl_ci == 1) XV_CANARY("reply of the second session sent");
+    if (rv == 0 && xv_ctl_send_rc >= 0) XV_CANARY("reply sent");
     if (rv == 0 && xv_ctl_send_rc < 0) XV_CANARY("EAGAIN: reply stays pending");
     if (rv == -1) XV_CANARY("send failed");
 }
